@@ -133,9 +133,77 @@ Definition dec_of_token (s : str) : option (Z * nat) :=
   end.
 (* map(float if '.' in rest else int, ...) on one token; None = outside the modelled number syntax
    (there CPython raises ValueError, or accepts forms such as 1_0, 1e5, inf that are outside the domain) *)
+(* ---- the complete cell grammar of int() and float() on a word (no white space inside), CPython 3.x:
+   Objects/longobject.c PyLong_FromString / Python/pystrtod.c _Py_string_to_number_with_underscores + PyOS_string_to_double.
+   An underscore is accepted only between two digits; the text without underscores is then read. *)
+Fixpoint strip_us (s : str) (prev : byte) : option str :=
+  match s with
+  | [] => if byte_eqb prev "_"%byte then None else Some []
+  | c :: r =>
+      if byte_eqb c "_"%byte
+      then (if is_digit prev then strip_us r c else None)
+      else if byte_eqb prev "_"%byte && negb (is_digit c) then None
+           else match strip_us r c with Some t => Some (c :: t) | None => None end
+  end.
+(* int(tok): [+-]? D+ (_ D+)*  (leading zeros allowed) *)
+Definition py_int (tok : str) : option Z :=
+  match Z_of_dec tok with
+  | Some z => Some z
+  | None => match strip_us tok x00 with Some t => Z_of_dec t | None => None end
+  end.
+Definition is_e (c : byte) : bool := byte_eqb c "e"%byte || byte_eqb c "E"%byte.
+Definition all_digits (s : str) : bool := match s with [] => false | _ => forallb is_digit s end.
+(* the exponent part after e/E: [+-]? D+ ; exponents of more than 3 digits are outside the modelled domain *)
+Definition udigits3 (s : str) : option Z :=
+  if all_digits s && Nat.leb (length s) 3 then digits_acc s 0%Z else None.
+Definition exponent (s : str) : option Z :=
+  match s with
+  | "-"%byte :: r => match udigits3 r with Some e => Some (Z.opp e) | None => None end
+  | "+"%byte :: r => udigits3 r
+  | _ => udigits3 s
+  end.
+(* m / 10^k * 10^e as a decimal again *)
+Definition scale (m : Z) (k : nat) (e : Z) : Z * nat :=
+  if Z.leb (Z.of_nat k) e then (m * Z.pow 10 (e - Z.of_nat k), 0%nat)%Z else (m, Z.to_nat (Z.of_nat k - e)).
+(* D* [. D*] [(e|E) [+-]? D+], at least one digit before the exponent *)
+Definition ufloat (s : str) : option (Z * nat) :=
+  let (ip, t) := span_digits s in
+  let (fp, t2) := match t with
+                  | c :: t' => if byte_eqb c "."%byte then span_digits t' else ([], t)
+                  | [] => ([], t)
+                  end in
+  match ip ++ fp with
+  | [] => None
+  | ds => match digits_acc ds 0%Z with
+          | None => None
+          | Some m =>
+              match t2 with
+              | [] => Some (m, length fp)
+              | c :: ex => if is_e c
+                           then match exponent ex with Some e => Some (scale m (length fp) e) | None => None end
+                           else None
+              end
+          end
+  end.
+Definition sfloat (s : str) : option (Z * nat) :=
+  match s with
+  | "-"%byte :: r => match ufloat r with Some (z, k) => Some (Z.opp z, k) | None => None end
+  | "+"%byte :: r => ufloat r
+  | _ => ufloat s
+  end.
+(* float(tok) for finite results: plain decimals first (dec_of_token), then underscores and exponents.
+   inf / infinity / nan (any case, signed) are accepted by CPython but are outside the modelled domain (None here). *)
+Definition py_float (tok : str) : option num :=
+  match dec_of_token tok with
+  | Some (m, k) => Some (NDec m k)
+  | None => match strip_us tok x00 with
+            | Some t => match sfloat t with Some (m, k) => Some (NDec m k) | None => None end
+            | None => None
+            end
+  end.
 Definition parse_num (fl : bool) (tok : str) : option num :=
-  if fl then match dec_of_token tok with Some (m, k) => Some (NDec m k) | None => None end
-  else match Z_of_dec tok with Some z => Some (NInt z) | None => None end.
+  if fl then py_float tok
+  else match py_int tok with Some z => Some (NInt z) | None => None end.
 
 Fixpoint parse_vals (fl : bool) (toks : list str) : option (list num) :=
   match toks with
@@ -444,3 +512,171 @@ Definition run_C20w (e : eol) (final : bool) (f : list aline) : val :=
    directory (the name may spell a bundled matrix): the whole function with its file-system input *)
 Definition run_C20c (name content : str) : val :=
   VL [VB (all_ascii name && wf_content content); outcome_val (submat_call name (Some content))].
+
+(* ================================================================ round 7 *)
+Definition is_words (l : aline) : bool := match l with AWords _ _ _ _ => true | _ => false end.
+
+(* ---------------------------------------------------------------- matrices of NUMBERS in any layout *)
+(* a body line is a comment / blank line, or a row: lead, row letter, (separator, number) cells, trailing blanks *)
+Inductive mline := MSkip (l : aline) | MRow (lead r : str) (cells : list (str * num)) (trail : str).
+Definition mline_aline (ml : mline) : aline :=
+  match ml with
+  | MSkip l => l
+  | MRow lead r cells trail => AWords lead r (map (fun p => (fst p, render_num (snd p))) cells) trail
+  end.
+(* comment / blank lines, the header line, the body *)
+Record mfile := MFile { mf_pre : list aline; mf_hlead : str; mf_h1 : str; mf_hmore : list (str * str); mf_htrail : str;
+                        mf_body : list mline }.
+Definition mf_letters (mf : mfile) : list str := mf_h1 mf :: map snd (mf_hmore mf).
+Definition mf_header (mf : mfile) : aline := AWords (mf_hlead mf) (mf_h1 mf) (mf_hmore mf) (mf_htrail mf).
+Definition to_afile (mf : mfile) : list aline := mf_pre mf ++ mf_header mf :: map mline_aline (mf_body mf).
+(* what float() makes of an integer literal *)
+Definition as_dec (v : num) : num := match v with NInt z => NDec z 0 | _ => v end.
+(* the converter is chosen per ROW: one decimal literal turns every cell of the row into a float *)
+Definition row_vals (vals : list num) : list num := if forallb is_int_num vals then vals else map as_dec vals.
+(* the dict of dicts submat returns: rows in file order, a repeated row letter replaces the earlier row at its place,
+   zip(letters, values) truncates to the shorter of the two *)
+Definition expected_rows (hs : list str) (body : list mline) : matrix :=
+  fold_left (fun mat ml => match ml with
+                           | MRow _ r cells _ => dict_set r (dict_of_pairs (combine hs (row_vals (map snd cells)))) mat
+                           | MSkip _ => mat
+                           end) body [].
+Definition mline_ok (ml : mline) : bool :=
+  aline_ok (mline_aline ml) &&
+  match ml with MSkip l => negb (is_words l) | MRow _ _ cells _ => negb (Nat.eqb (length cells) 0) end.
+Definition mfile_ok (mf : mfile) : bool :=
+  forallb (fun l => aline_ok l && negb (is_words l)) (mf_pre mf) && aline_ok (mf_header mf) && forallb mline_ok (mf_body mf).
+
+(* ---------------------------------------------------------------- a directory of files, directories and symbolic links *)
+Inductive fsent := FReg (content : str) | FDir | FLink (target : str).
+Definition fsdir := list (str * fsent).
+(* os.path.isfile(name) and what open(name) reads: os.stat follows symbolic links (Linux: at most 40, then ELOOP);
+   a directory, a missing entry, a dangling link and a link loop are no file *)
+Fixpoint fs_file (fuel : nat) (d : fsdir) (name : str) : option str :=
+  match fuel with
+  | O => None
+  | S n => match dict_get name d with
+           | Some (FReg c) => Some c
+           | Some (FLink t) => fs_file n d t
+           | _ => None
+           end
+  end.
+Definition max_links : nat := 41.     (* the entry itself + 40 links *)
+Definition submat_fs (d : fsdir) (name : str) : outcome := submat_call name (fs_file max_links d name).
+
+(* ---------------------------------------------------------------- histories of calls: objects handed out *)
+(* what a caller may do with a matrix it got (tools/props/c20.py _edit_result) *)
+Inductive edit := EDelRow | EAddRow | EClear | ECell.
+Fixpoint edit_cell (m : matrix) : matrix :=
+  match m with
+  | [] => []
+  | (r, []) :: rest => (r, []) :: edit_cell rest
+  | (r, (c, _) :: cs) :: rest => (r, dict_set (bs "__col__"%bs) (NInt (-1)) ((c, NInt 424242) :: cs)) :: rest
+  end.
+Definition apply_edit (e : edit) (m : matrix) : matrix :=
+  match e with
+  | EDelRow => tl m
+  | EAddRow => dict_set (bs "__new__"%bs) [(bs "__new__"%bs, NInt 0)] m
+  | EClear => []
+  | ECell => edit_cell m
+  end.
+Definition edit_outcome (e : edit) (o : outcome) : outcome :=
+  match o with OMatrix m => OMatrix (apply_edit e m) | _ => o end.
+Fixpoint upd_nth {A} (i : nat) (f : A -> A) (l : list A) : list A :=
+  match l, i with
+  | [], _ => []
+  | x :: r, O => f x :: r
+  | x :: r, S i' => x :: upd_nth i' f r
+  end.
+(* a step: a call (argument text, and the content of the regular file the argument leads to, if any), an in-place edit of
+   the object returned by the i-th call, or nothing *)
+Inductive hstep := HCall (name : str) (file : option str) | HEdit (i : nat) (e : edit) | HSkip.
+(* submat since 0feda3c: every call builds a new dict of new dicts. The heap is the list of all objects handed out so far;
+   an observation is (object identity, content at the time of the call) *)
+Fixpoint hrun (steps : list hstep) (heap : list outcome) : list (option (nat * outcome)) * list outcome :=
+  match steps with
+  | [] => ([], heap)
+  | HCall name file :: r =>
+      let o := submat_call name file in
+      let (obs, h) := hrun r (heap ++ [o]) in (Some (length heap, o) :: obs, h)
+  | HEdit i e :: r => let (obs, h) := hrun r (upd_nth i (edit_outcome e) heap) in (None :: obs, h)
+  | HSkip :: r => let (obs, h) := hrun r heap in (None :: obs, h)
+  end.
+(* what the property demands: the i-th call returns a new object holding the pure result *)
+Fixpoint obs_spec (steps : list hstep) (n : nat) : list (option (nat * outcome)) :=
+  match steps with
+  | [] => []
+  | HCall name file :: r => Some (n, submat_call name file) :: obs_spec r (S n)
+  | _ :: r => None :: obs_spec r n
+  end.
+(* for contrast, the variant before 0feda3c (functools.lru_cache on the argument): one object per distinct argument,
+   handed out again as it is NOW (edited by the caller; stale when the file was rewritten) *)
+Fixpoint hrun_cached (steps : list hstep) (cache : list (str * nat)) (heap : list outcome)
+  : list (option (nat * outcome)) * list outcome :=
+  match steps with
+  | [] => ([], heap)
+  | HCall name file :: r =>
+      match dict_get name cache with
+      | Some i => let (obs, h) := hrun_cached r cache heap in
+                  (Some (i, nth i heap OValueError) :: obs, h)
+      | None => let o := submat_call name file in
+                let (obs, h) := hrun_cached r (cache ++ [(name, length heap)]) (heap ++ [o]) in
+                (Some (length heap, o) :: obs, h)
+      end
+  | HEdit i e :: r => let (obs, h) := hrun_cached r cache (upd_nth i (edit_outcome e) heap) in (None :: obs, h)
+  | HSkip :: r => let (obs, h) := hrun_cached r cache heap in (None :: obs, h)
+  end.
+
+(* ---------------------------------------------------------------- round 7 harness entry points *)
+(* op 5: a matrix of numbers in an abstract layout: the text is rendered here, parsed, and compared with expected_rows *)
+Definition run_C20m (e : eol) (final : bool) (mf : mfile) : val :=
+  let raw := render_with e final (to_afile mf) in
+  VL [VB (mfile_ok mf);
+      VL [VI (Z.of_nat (length raw)); VI (Z.of_N (cksum raw)); parsed_val raw;
+          matrix_val (expected_rows (mf_letters mf) (mf_body mf))]].
+(* op 6: submat(name) in a working directory with these entries *)
+Definition run_C20d (d : fsdir) (name : str) : val :=
+  VL [VB (all_ascii name && match fs_file max_links d name with
+                            | Some c => wf_content c
+                            | None => wf_C20 0 name []
+                            end);
+      match fs_file max_links d name with
+      | Some _ => VL [VS (bs "user"%bs); outcome_val (submat_fs d name)]
+      | None => VL [VS (bs "name"%bs); outcome_val (submat_fs d name)]
+      end].
+(* op 7: a history: observations (identity, content) of the calls, and the content of every object at the end *)
+Definition hstep_wf (s : hstep) : bool :=
+  match s with
+  | HCall name None => wf_C20 0 name []
+  | HCall _ (Some c) => wf_content c
+  | _ => true
+  end.
+Definition run_C20h (steps : list hstep) : val :=
+  let (obs, h) := hrun steps [] in
+  VL [VB (forallb hstep_wf steps);
+      VL [VL (map (fun o => match o with
+                            | Some (i, v) => VL [VI (Z.of_nat i); outcome_val v]
+                            | None => VNone
+                            end) obs);
+          VL (map outcome_val h)]].
+(* op 8: one cell word read by int() and by float() *)
+Definition lower1 (c : byte) : byte :=
+  let n := Byte.to_N c in
+  if N.leb 65 n && N.leb n 90 then match Byte.of_N (n + 32) with Some b => b | None => c end else c.
+Definition unsigned (tok : str) : str :=
+  match tok with
+  | c :: r => if byte_eqb c "-"%byte || byte_eqb c "+"%byte then r else tok
+  | [] => tok
+  end.
+Definition is_special (tok : str) : bool :=
+  let t := map lower1 (unsigned tok) in
+  str_eqb t (bs "inf"%bs) || str_eqb t (bs "infinity"%bs) || str_eqb t (bs "nan"%bs).
+Fixpoint after_e (s : str) : str :=
+  match s with [] => [] | c :: r => if is_e c then r else after_e r end.
+(* the modelled number domain: finite results, exponents of at most 3 digits, words shorter than 1000 characters *)
+Definition num_domain (tok : str) : bool :=
+  negb (is_special tok) && Nat.leb (length (unsigned (after_e tok))) 3 && Nat.ltb (length tok) 1000 && negb (existsb (byte_eqb x00) tok) && negb (existsb is_ws tok).   (* a word has no white space *)
+Definition run_C20n (tok : str) : val :=
+  VL [VB (num_domain tok);
+      VL [match py_int tok with Some z => VI z | None => VE (bs "ValueError"%bs) end;
+          match py_float tok with Some v => num_val v | None => VE (bs "ValueError"%bs) end]].
